@@ -471,6 +471,18 @@ def handleWindow (ws : List String) : String :=
     s!"{" ".intercalate slots} | {Window.firstTrace n1 w} {Window.lastTrace n1 w}"
   | _ => "bad-op"
 
+/-- `winaxes START STEP C0 C1`: header words (count origin increment) of one line axis of a windowed conversion, then the
+axis a reader regenerates from them -/
+def handleWinAxes (ws : List String) : String :=
+  match ws with
+  | [st, sp, c0, c1] =>
+    match st.toInt?, sp.toInt?, c0.toNat?, c1.toNat? with
+    | some st, some sp, some c0, some c1 =>
+      let w := Window.axisWords st sp c0 c1
+      s!"{w.1} {w.2.1} {w.2.2} | {" ".intercalate ((Window.windowAxis st sp c0 c1).map toString)}"
+    | _, _, _, _ => "bad-op"
+  | _ => "bad-op"
+
 /-- `hdrio VERSION NHB D LEN NARRAYS T`: range reads of `gen_trace_header(T)` on a regular file, then those of opening -/
 def handleHdrIO (ws : List String) : String :=
   match ws.mapM String.toNat? with
@@ -642,6 +654,7 @@ def handle (line : String) : String :=
   | "irr" :: rest => handleIrr rest
   | "export" :: rest => handleExport rest
   | "window" :: rest => handleWindow rest
+  | "winaxes" :: rest => handleWinAxes rest
   | "container" :: rest => handleContainer rest
   | "header" :: rest => handleHeader rest
   | "hdrio" :: rest => handleHdrIO rest
